@@ -291,6 +291,11 @@ type Machine struct {
 	forkCount  int
 	forcedLen  int
 
+	// cross-solver sampling (thorough tier): standalone scripts of assertion queries with the primary verdict
+	CrossEvery   int
+	CrossQueries []CrossQuery
+	crossCount   int
+
 	// shared-memory write monitor (C07): cells frozen by nd.Freeze*, and plain writes that hit them
 	frozen       map[*Value]string
 	frozenMaps   map[*Map]string
@@ -725,6 +730,13 @@ func (m *Machine) Assert(label string, c *smt.Term) {
 		}
 	} else {
 		r, model = m.check(nc, m.modelTerms())
+		if m.CrossEvery > 0 && r != smt.Unknown {
+			m.crossCount++
+			if m.crossCount <= 2 || m.crossCount%m.CrossEvery == 0 {
+				as := append(append([]*smt.Term{}, m.pc...), nc)
+				m.CrossQueries = append(m.CrossQueries, CrossQuery{Script: smt.Standalone(m.St, as), Primary: r.String(), Label: label})
+			}
+		}
 	}
 	switch r {
 	case smt.Unsat:
@@ -774,6 +786,12 @@ func (m *Machine) backtrack() bool {
 		m.trail = m.trail[:len(m.trail)-1]
 	}
 	return false
+}
+
+type CrossQuery struct {
+	Script  string
+	Primary string
+	Label   string
 }
 
 type RunResult struct {
